@@ -2,6 +2,7 @@ import Crusta.Model.Cli
 import Crusta.Proofs.Oracle
 import Crusta.Proofs.CliCompose
 import Crusta.Proofs.CliFile
+import Crusta.Proofs.CliApx
 
 /-!
 # C05 — the command-line tools print exactly the right answer, or none (property theorems)
@@ -234,5 +235,23 @@ theorem cli_on_readable_file (bs : List UInt8) (fw : IO.IccmaFw) (hfile : IO.rea
     ∃ p, entryProg (dispatchSolver t σ) cfg (Store.ofIccma fw.n fw.atts).view (entryOf t cert [a]) = some p ∧
       wp False p w (fun ans _ => ProblemOK t σ (Store.ofIccma fw.n fw.atts).g (entryOf t cert [a]) ans) :=
   cli_on_iccma_file bs fw hfile s t σ hread enc cfg henc cert argStr a harg w hb hfuel
+
+/-- **the same for the Aspartix format**: for every byte sequence the Aspartix reader accepts, the
+framework it builds (arguments in declaration order, duplicates dropped; one `new_attack` per attack
+line, repeated lines having no effect) presents exactly the declared graph, and for every accepted
+problem string, `--encoding` value, certificate flag and `-a` label that is declared in the file, the
+dispatched solver program exists, never panics on sound replies and returns what the problem asks for -/
+theorem cli_on_readable_apx_file (bs : List UInt8) (fw : IO.ApxFw) (hfile : IO.readApx bs = .ok fw)
+    (s : Str) (t : Task) (σ : Sem) (hread : readProblem s = some (t, σ))
+    (enc : Option String) (cfg : Cfg)
+    (henc : ∀ k, dispatchEncoder σ enc (decide (s = s_SEPR)) = some k → cfg.enc = k)
+    (cert : Bool) (argStr : Str) (a : Nat) (harg : t ≠ .SE → IO.idxOf fw.labels argStr = some a)
+    (w : World) (hb : w.Bounded)
+    (hfuel : cfg.fuel ≥ fuelFor (1 + (apxStore fw).view.maxId.getD 0)) :
+    (∀ x, (apxStore fw).g.live x = true ↔ x < fw.labels.length) ∧
+    (∀ x y, (apxStore fw).g.att x y ↔ (x, y) ∈ fw.atts) ∧
+    ∃ p, entryProg (dispatchSolver t σ) cfg (apxStore fw).view (entryOf t cert [a]) = some p ∧
+      wp False p w (fun ans _ => ProblemOK t σ (apxStore fw).g (entryOf t cert [a]) ans) :=
+  cli_on_apx_file bs fw hfile s t σ hread enc cfg henc cert argStr a harg w hb hfuel
 
 end Crusta.C05
